@@ -616,7 +616,8 @@ pub fn run_case(tier: &str, seed: u64, idx: u64) -> CaseOut {
         0 | 8 => scenario_reader_across_flush(&mut out, &mut rng, idx / 8),
         4 | 12 => scenario_timed_park(&mut out, &mut rng, idx / 4, tier),
         2 => scenario_group_commit(&mut out, &mut rng),
-        10 => scenario_memtable_churn(&mut out, &mut rng, tier),
+        // (the churn scenario is slow: thousands of inserts into one skiplist; every 32nd case)
+        10 if idx % 32 == 10 => scenario_memtable_churn(&mut out, &mut rng, tier),
         _ => scenario_perturbation(&mut out, &mut rng, tier),
     }
     super::c09::judge_bg_panics(&mut out, "C05/aux");
